@@ -144,7 +144,10 @@ class PackCopier(FileStorageFormatter):
         try:
             prev_pos = 0
             if prev_txn is not None:
-                prev_txn_pos = self._txn_find(prev_txn, 0)
+                try:
+                    prev_txn_pos = self._txn_find(prev_txn, 0)
+                except PackError:
+                    prev_txn_pos = 0  # the whole transaction was packed away
                 if prev_txn_pos:
                     prev_pos = self._data_find(prev_txn_pos, oid, data)
             return prev_pos
@@ -663,7 +666,12 @@ class FileStoragePacker(FileStorageFormatter):
                               pos, self._tfile.tell())
 
         tlen = self._tfile.tell() - pos
-        assert tlen == th.tlen
+        if tlen != th.tlen:
+            # A back pointer whose target was packed away was replaced by
+            # the data: fix the length in the header.
+            self._tfile.seek(pos + 8)
+            self._tfile.write(p64(tlen))
+            self._tfile.seek(pos + tlen)
         self._tfile.write(p64(tlen))
         ipos += 8
 
